@@ -39,7 +39,7 @@ Add(r) ==
        /\ IF skip THEN UNCHANGED <<pend, nextId>>
           ELSE pend' = pend \cup {[id |-> nextId, rule |-> r]} /\ nextId' = nextId + 1
        /\ UNCHANGED <<firedRules, firedGrp, locked, lastRet, disciplined, retLog>>
-       /\ last' = [op |-> "add", r |-> r]
+       /\ \E cc \in {1, 3} : last' = [op |-> "add", r |-> r, cc |-> cc]   \* condition count: irrelevant under the default (salience) strategy
 
 Eligible(a) == /\ ~(Attr(a).noLoop /\ a.rule \in firedRules)
                /\ ~(Attr(a).lock /\ Attr(a).ag \in locked)
